@@ -76,7 +76,7 @@ def handle (args : List String) (impl : String) : R Ans :=
     let showBS := fun (p : Option (List (Nat × Dir))) => match p with
       | some p => (match sequenceOfPath g p with | some s => showDigits s | none => "panic")
       | none => "panic"
-    let model := s!"edges={showAllEdges edges}|links={if links.isEmpty then "-" else ",".intercalate links}|valid={if vex.isEmpty then "-" else ",".intercalate (vex.map fun e => toHex e.val 2)}|maxpath={showPath mp}|mpseq={match mpSeq with | some s => showDigits s | none => "panic"}|wseq={match wSeq with | some s => showDigits s | none => "panic"}|beam={";".intercalate (beams.map showB)}|bseq={";".intercalate (beams.map showBS)}"
+    let model := s!"edges={showAllEdges edges}|links={if links.isEmpty then "-" else ",".intercalate links}|valid={if vex.isEmpty then "-" else ",".intercalate (vex.map fun e => toHex e.val 2)}|maxpath={showPath mp}|mpseq={match mpSeq with | some s => showDigits s | none => "panic"}|wseq={match wSeq with | some s => showDigits s | none => "panic"}|beam={";".intercalate (beams.map showB)}|bseq={";".intercalate (beams.map showBS)}|iter={if ns.isEmpty then "-" else ",".intercalate (ns.zipIdx.map fun (n, i) => s!"{i}:{showDigits n.seq}:{toHex n.exts.val 2}:{n.data.headD 0}")}"
     -- a recorded extension that resolves to no node end (the beam search is only judged without any)
     let dangling := ns.any fun n => [Dir.L, Dir.R].any fun d => base4.any fun b =>
       n.exts.hasExt d b.val && (findLink g (extend (termKmer K n.seq d) b d) d).isNone
